@@ -213,7 +213,11 @@ def scenario(ctx, seed):
                                   (seed, predicted, ev1), rep)
                     return
                 g_, _ = e2e.clean_contents(sc, t)
-                pos = {o: i for i, o in enumerate(predicted)}
+                # (a command may be listed twice: once by the build that checks the manifest - side work behind the manifest's
+                # statement - and again by the real build; what counts is that its prerequisite was listed before its first mention)
+                pos = {}
+                for i_, o_ in enumerate(predicted):
+                    pos.setdefault(o_, i_)
                 sid_of = {s["outs"][0]: s["id"] for s in sc["stmts"]}
                 pairs = model.ordering_constraints(g_, {sid_of[o] for o in predicted if o in sid_of})
                 out0 = {s["id"]: s["outs"][0] for s in sc["stmts"]}
